@@ -185,11 +185,11 @@ def units(tier, seed):
     s = 1 + seed % 1000
     descs = []
     k = 0
-    roots = ["SEA", "DE"] if tier == "quick" else ["SEA", "DE", "SHADE", "LHS", "GA"]
+    roots = ["SEA", "DE", "SHADE", "LHS"] if tier == "quick" else ["SEA", "DE", "SHADE", "LHS", "GA", "MWEA", "SOB", "DEd"]
     for r in roots:
         for c in ALL:
             for fk in ("far", "nbc_all", "nbc_active"):
-                for ti, o in ((0, 2), (1, 1), (1, np.inf)) if tier == "quick" else ((0, 1), (0, 2), (0, np.inf), (1, 1), (1, 2), (1, np.inf)):
+                for ti, o in ((0, 1), (0, 2), (0, np.inf), (1, 1), (1, 2), (1, np.inf)):
                     k += 1
                     o = "inf" if o == np.inf else o
                     if fk == "far":
